@@ -266,6 +266,10 @@ def compact_nf(prog, modname, fname='compact', depth=0):
 
     if len(body) == 1 and isinstance(body[0], ast.Return) and body[0].value is not None:
         v = body[0].value
+        # f'FR{expr}' is 'FR' + expr for a string-valued expr
+        if isinstance(v, ast.JoinedStr) and len(v.values) == 2 and isinstance(v.values[0], ast.Constant) and isinstance(v.values[0].value, str) \
+                and isinstance(v.values[1], ast.FormattedValue) and v.values[1].format_spec is None and v.values[1].conversion == -1:
+            v = ast.BinOp(left=v.values[0], op=ast.Add(), right=v.values[1].value)
         nf = chain_nf(v)
         if nf is not None:
             return nf + ((),) if nf[0] == 'nf' and len(nf) == 4 else nf
